@@ -3,7 +3,8 @@
    refinement statement before/alongside proving it.  Case: (specdiff call...)
    -> "OK" or the index of the first call whose reply or contents differ. *)
 From Lungo.Model Require Import Driver RunAccess RunApi ApiOps.
-From Lungo.Spec Require Import SpecDb.
+From Lungo.Model Require Import DriverExt.
+From Lungo.Spec Require Import SpecDb SpecDbExt.
 Open Scope string_scope.
 
 Section RunSpec.
@@ -42,16 +43,16 @@ Section RunSpec.
     match cs with
     | [] => "OK"
     | x :: t =>
-        match call_in ds x with
+        match xcall_in ds x with
         | None => "BAD-CALL"
         | Some c =>
-            let '(ds', r1) := step matchf applyf extractf projectf 0 ds c in
-            let '(s', r2) := s_step matchf applyf extractf projectf 0 s c in
-            if String.eqb (show_reply r1) (show_reply r2) &&
+            let '(ds', r1) := xstep matchf applyf extractf projectf 0 ds c in
+            let '(s', r2) := xs_step matchf applyf extractf projectf 0 s c in
+            if String.eqb (show_xreply r1) (show_xreply r2) &&
                String.eqb (abs_state ds') (show_abs (ss_colls s')) &&
                (g_oid (ds_gen ds') =? ss_oid s')%Z
             then diff_go ds' s' t (i + 1)%Z
-            else "DIFF " ++ show_Z i ++ " impl=" ++ show_reply r1 ++ " spec=" ++ show_reply r2
+            else "DIFF " ++ show_Z i ++ " impl=" ++ show_xreply r1 ++ " spec=" ++ show_xreply r2
                  ++ " implstate=" ++ abs_state ds' ++ " specstate=" ++ show_abs (ss_colls s')
         end
     end.
